@@ -394,4 +394,9 @@ class C18(Prop):
         raise KeyError(law)
 
 
-PROP = C18()
+from srccall import with_src  # noqa: E402
+
+# translated source: the two splitting helpers of parse_email are proved equal to Email.parseKeywords / parseProjectUrls
+PROP = with_src(C18(), share=12, functions=["_parse_keywords", "_parse_project_urls"], module="PkgProofs.Props.Src.Metadata",
+                theorems=["Src._parse_keywords_translated", "Src._parse_keywords_eq_model",
+                          "Src._parse_project_urls_translated", "Src._parse_project_urls_eq_model"])
